@@ -1016,6 +1016,59 @@ M("a2-cast-if-chain", "C03", "quiet", "src/compile.rs",
                     extend_to_bits(&mut expr, ty_expr, size_after_cast);
                     expr
                 }""", "same cast, two-way selection (extend_to_bits is a no-op for equal widths)")
+M("a13-minus-one-without-sign-bit", "C03", "fire A13", "src/compile.rs",
+  """                            let mut y_is_minus_one = 1;
+                            for &w in y.iter() {
+                                y_is_minus_one = circuit.push_and(y_is_minus_one, w);
+                            }""",
+  """                            let mut y_is_minus_one = 1;
+                            for &w in y.iter().skip(1) {
+                                y_is_minus_one = circuit.push_and(y_is_minus_one, w);
+                            }""", "seed C03-i: MIN / MAX panics")
+M("a13-quiet-minus-one-from-first-wire", "C03", "quiet", "src/compile.rs",
+  """                            let mut y_is_minus_one = 1;
+                            for &w in y.iter() {
+                                y_is_minus_one = circuit.push_and(y_is_minus_one, w);
+                            }""",
+  """                            let mut y_is_minus_one = y[0];
+                            for &w in y.iter().skip(1) {
+                                y_is_minus_one = circuit.push_and(y_is_minus_one, w);
+                            }""", "same conjunction started from the first wire")
+M("f8-nested-literals-leave-literal-mode", "C07", "fire F8", "src/parse.rs",
+  """            self.parse_literal(token, true)
+        } else {""",
+  """            self.parse_literal(token, false)
+        } else {""", "seed C07-i: nested struct literals are sorted again")
+M("l11-signed-range-bound-against-unsigned-max", "C09", "fire L11", "src/check.rs",
+  """                    (same_width, expected.max().map(|max| max as u64))""",
+  """                    (same_width, same_width.as_ref().and_then(UnsignedNumType::max))""", "seed C09-l: 0..200 accepted as [i8; 200]")
+M2("b7-dealias-wire-from-unmodified-circuit", "C11", "fire B7", [
+  ("src/convert.rs", """        let mut wire_max = total_wires;
+
+""", """
+"""),
+  ("src/convert.rs", """            if !inserted {
+                let circuit = mod_circuit.get_or_insert_with(|| circuit.clone());""",
+  """            if !inserted {
+                let wire_max = circuit.wires_len();
+                let circuit = mod_circuit.get_or_insert_with(|| circuit.clone());"""),
+  ("src/convert.rs", """                wire_max += 2;
+""", "")], "seed C11-h (the length of the unmodified circuit is the same in every iteration)")
+M("b7-counter-step-one", "C11", "fire B7", "src/convert.rs",
+  """                wire_max += 2;""",
+  """                wire_max += 1;""", "two gates appended, counter advanced by one")
+M2("b7-quiet-wire-from-modified-circuit", "C11", "quiet", [
+  ("src/convert.rs", """        let mut wire_max = total_wires;
+
+""", """
+"""),
+  ("src/convert.rs", """                let circuit = mod_circuit.get_or_insert_with(|| circuit.clone());
+                // This output wire""",
+  """                let circuit = mod_circuit.get_or_insert_with(|| circuit.clone());
+                let wire_max = circuit.wires_len();
+                // This output wire"""),
+  ("src/convert.rs", """                wire_max += 2;
+""", "")], "the length of the circuit the gates are appended to grows with them")
 M("a3-div-pow2-to-shift", "C03", "fire A3", "src/compile.rs",
   """                let ty_x = &x.ty;
                 let ty_y = &y.ty;
